@@ -144,4 +144,10 @@ theorem maxNeed_ge (ks : List (List Tree)) : ∀ k ∈ ks, Trees.need k ≤ maxN
 def itemOk (shape : List Tree) (k : List Tree) : Prop :=
   Trees.toParams k = Trees.toParams shape ∧ Trees.okAll k ∧ Trees.namesOk k
 
+/-- the values handed to the encoder: one dictionary per item -/
+def itemVals (ks : List (List Tree)) : List PVal := ks.map fun k => PVal.dict (Trees.pair k).val
+
+theorem itemVals_length (ks : List (List Tree)) : (itemVals ks).length = ks.length := by
+  simp [itemVals]
+
 end OdxVerif.Codec
